@@ -272,9 +272,10 @@ func (s *sut) snapshot() *snapshot {
 	for _, d := range sn.alloc.Devices {
 		di := devInfo{id: d.ID, typ: int(d.Type), base: d.InitialAddress / P, n: d.StorageSize / P, unified: d.UnifiedGPUIDs}
 		sn.devs = append(sn.devs, di)
+		// the unified pseudo-device owns no memory (range of 0 frames); its own
+		// free structure is read like any other so that a frame handed to it
+		// shows up as a free frame outside the device
 		switch {
-		case di.typ == driver.VerifDeviceTypeUnifiedGPU:
-			sn.free = append(sn.free, nil)
 		case d.Buddy:
 			sn.free = append(sn.free, buddyFree(&d, P))
 		default:
